@@ -53,6 +53,9 @@ func init() {
 // reverse(..) will generate a reversed version of the provided
 // unicode array and return it back to its caller.
 func reverse(s []byte) []byte {
+	if !utf8.Valid(s) {
+		return reverseInvalid(s)
+	}
 	cursorIn := 0
 	inputRunes := []rune(string(s))
 	cursorOut := len(s)
@@ -74,5 +77,27 @@ func reverse(s []byte) []byte {
 		cursorOut -= wid
 	}
 
+	return output
+}
+
+// reverseInvalid handles terms that are not valid UTF-8: widths are taken
+// from the bytes actually consumed, so an invalid byte counts as one byte.
+func reverseInvalid(s []byte) []byte {
+	output := make([]byte, len(s))
+	cursorOut := len(s)
+	for cursorIn := 0; cursorIn < len(s); {
+		_, wid := utf8.DecodeRune(s[cursorIn:])
+		for cursorIn+wid < len(s) {
+			r, w := utf8.DecodeRune(s[cursorIn+wid:])
+			if r != utf8.RuneError && (unicode.Is(unicode.Mn, r) || unicode.Is(unicode.Me, r) || unicode.Is(unicode.Mc, r)) {
+				wid += w
+			} else {
+				break
+			}
+		}
+		copy(output[cursorOut-wid:cursorOut], s[cursorIn:cursorIn+wid])
+		cursorIn += wid
+		cursorOut -= wid
+	}
 	return output
 }
